@@ -3,6 +3,7 @@ REGEX-VALID   the compiled regex is used / freed only under the REGEXVALID flag,
 RANGES-RESET  SetPattern() forgets the numeric ranges of the previous pattern on every path (a recycled / re-set matcher must not keep matching the old <n-m> clause)"""
 from msa import ast as A
 from msa import cfg as C
+from msa import ip as IP
 from msa import pair as P
 from msa.facts import AnalysisBroken
 
@@ -28,10 +29,15 @@ def regex_valid_rule(res, fx, rule='REGEX-VALID'):
                         ok = True
                 res.ob(rule, f.where(c), '%s: %s(&_regExp) only when the REGEXVALID flag is set' % (f.q.split('::')[-1], c.get('q')), ok, function=f.q, key='%s|%s|%s' % (rule, f.q, c.get('q')),
                        message='%s calls %s on _regExp without testing STRINGMATCHER_FLAG_REGEXVALID: a matcher whose pattern never compiled hands an uninitialised regex_t to libc (crash)' % (f.q, c.get('q')))
-    f = fx.fn1(SM + '::SetPattern')
-    rcs = [v for v in f.walk() if v['k'] == 'VarDecl' and v['ch'] and any(x.is_call() and (x.get('q') or '') == 'regcomp' for x in v['ch'][0].walk())]
-    sets = [c for c in f.walk() if c['k'] == 'CXXMemberCallExpr' and (c.get('q') or '').endswith('::SetBit') and _mentions_flag(c)]
-    if not rcs or not sets:
+    # the compile step: in SetPattern itself or in a private helper it was split into (msa/ip.py)
+    f, rcs, sets = None, [], []
+    for g_ in IP.scope(fx, fx.fn1(SM + '::SetPattern'), r'^muscle::StringMatcher::'):
+        rcs = [v for v in g_.walk() if v['k'] == 'VarDecl' and v['ch'] and any(x.is_call() and (x.get('q') or '') == 'regcomp' for x in v['ch'][0].walk())]
+        sets = [c for c in g_.walk() if c['k'] == 'CXXMemberCallExpr' and (c.get('q') or '').endswith('::SetBit') and _mentions_flag(c)]
+        if rcs and sets:
+            f = g_
+            break
+    if f is None:
         raise AnalysisBroken('REGEX-VALID: regcomp result / SetBit(REGEXVALID) not found in SetPattern')
     rc = rcs[0]['d']
 
